@@ -314,7 +314,11 @@ func TestC13(t *testing.T) {
 		if rng.IntN(4) == 0 {
 			pos := rng.IntN(len(docs) + 1)
 			var bad c13doc
-			switch rng.IntN(7) {
+			switch rng.IntN(9) {
+			case 7:
+				bad, invalidKind = c13doc{"kind": "ConfigMap", "namespace": "ns1", "name": "a"}, "no-operation"
+			case 8:
+				bad, invalidKind = c13doc{"operation": "", "kind": "ConfigMap", "namespace": "ns1", "name": "a"}, "empty-operation"
 			case 0:
 				bad, invalidKind = c13doc{"operation": "Create"}, "create-without-object"
 			case 1:
